@@ -224,7 +224,7 @@ fn run_transition(sc: &Scenario, path: &str, h: &[u32], a: Option<usize>, base: 
 }
 
 fn is_noncommitting(a: &Action) -> bool {
-    matches!(a, Action::Tx { commit: false, .. } | Action::RoTx { .. } | Action::RoCommit)
+    matches!(a, Action::Tx { commit: false, .. } | Action::RoTx { .. } | Action::RoCommit | Action::TxFail { .. })
 }
 
 
@@ -672,7 +672,7 @@ pub fn replay(v: &Value) -> i32 {
         }
     }
     let hist = History::from_json(&v["history"]);
-    let all = Oracles { rets: true, dump_after: true, reopen_copy: true, probe_each_op: Some(real::ProbeCfg::LIGHT), probe_after_commit: Some(real::ProbeCfg::LIGHT), fileck: true, dbcheck: true, no_trace: true, readers_frozen: true };
+    let all = Oracles { rets: true, dump_after: true, reopen_copy: true, probe_each_op: Some(real::ProbeCfg::LIGHT), probe_after_commit: Some(real::ProbeCfg::LIGHT), fileck: true, dbcheck: true, no_trace: true, readers_frozen: true, dump_in_tx: true };
     println!("step-by-step replay with every oracle on:");
     match Runner::new(&path, hist.cfg.clone()) {
         Ok(mut r) => {
